@@ -125,7 +125,7 @@ def parse_concrete(lines, **settings):
             pass
 
 
-def project(files, correlate=True, post=None, post_modules=(), **settings):
+def project(files, correlate=True, post=None, post_modules=(), file_order="sorted", sym_sets=(), **settings):
     """Run the real Project (all files parsed by the real parser, reader stubbed) and correlate().
     files: {basename: [logical lines (str or CV)]}.  `post(project)` runs inside the same patched context
     (same fresh NameSelector, same patches; `post_modules` are patched in addition) and its result is returned."""
@@ -145,7 +145,17 @@ def project(files, correlate=True, post=None, post_modules=(), **settings):
         # the directory enumeration order is not a function of the input: fix it (sorted) so that every
         # re-execution of the symbolic run visits the files in the same order
         real_find = fp.find_all_files
-        extra[(fp, "find_all_files")] = lambda st_: sorted(real_find(st_))
+        if file_order == "sorted":
+            extra[(fp, "find_all_files")] = lambda st_: sorted(real_find(st_))
+        # file_order == "environment": the real find_all_files; the order in which its set is iterated is whatever the
+        # modules named in sym_sets make of `set` (fv.permset.PermSet: an arbitrary permutation picked by the solver)
+        for m_ in sym_sets:
+            from fv import permset
+            extra[(m_, "set")] = permset.PermSet
+            extra[(m_, "sorted")] = permset.sym_sorted
+        old_symsets = set(patch.SYM_SET_MODULES)
+        patch.SYM_SET_MODULES.clear()
+        patch.SYM_SET_MODULES.update(m_.__name__ for m_ in sym_sets)
         with patch.patched(sf, fu, fp, *post_modules, extra=extra):
             buf = io.StringIO()
             with contextlib.redirect_stdout(buf), contextlib.redirect_stderr(buf):
@@ -157,6 +167,8 @@ def project(files, correlate=True, post=None, post_modules=(), **settings):
                     return post(p)
             return p
     finally:
+        patch.SYM_SET_MODULES.clear()
+        patch.SYM_SET_MODULES.update(old_symsets)
         for name in files:
             try:
                 os.remove(os.path.join(d, name))
